@@ -2,4 +2,4 @@ From Coq Require Import ExtrOcamlBasic.
 From HV Require Import Base.Res Base.Str Model.FileValidate.
 Extraction Language OCaml.
 Extraction "../ocaml/build/c07_model.ml"
-  force_types validate value_as_default_unit needs_sorting.
+  force_types validate run_history value_as_default_unit needs_sorting.
